@@ -125,6 +125,72 @@ func settleLine(c []int64, f []bool, s []int, order []int) M {
 	return M{"kind": "settle", "n": n, "c": c, "f": boolsToInts(f), "s": s, "order": order, "pots": potsJSON(ps, n), "chg": chg, "final": fin, "rpots": rp}
 }
 
+// scaledLines: the same vector multiplied by K = 2^53+1. The property's formulas are linear in the contributions, so
+// the only correct outputs are K times the small ones; the line carries the outputs divided by K and `exact` = every
+// output was divisible by K (TLC integers are 32 bit, so the division is done here; nothing else is inferred).
+// Only the pots are scaled: the settlement is NOT linear (odd chips depend on remainders).
+const scaleK = int64(1)<<53 + 1
+
+func scaledLines(o *potsOut, c []int64, f []bool, s []int, ord []int, doPots, doSettle bool) {
+	n := len(c)
+	big := make([]int64, n)
+	for i := range c {
+		big[i] = c[i] * scaleK
+	}
+	exact := true
+	div := func(x int64) int64 {
+		if x%scaleK != 0 {
+			exact = false
+		}
+		return x / scaleK
+	}
+	ps := buildPots(big, f, ord)
+	pj := []M{}
+	for _, p := range ps {
+		cs := [][]int64{}
+		keys := []int{}
+		for k := range p.Contributors {
+			keys = append(keys, k)
+		}
+		sort.Ints(keys)
+		for _, k := range keys {
+			cs = append(cs, []int64{int64(k), div(p.Contributors[k])})
+		}
+		lv := []M{}
+		for _, l := range p.Levels {
+			cc := append([]int{}, l.Contributors...)
+			sort.Ints(cc)
+			lv = append(lv, M{"level": div(l.Level), "wager": div(l.Wager), "total": div(l.Total), "contributors": cc})
+		}
+		pj = append(pj, M{"level": div(p.Level), "wager": div(p.Wager), "total": div(p.Total), "contrib": cs, "levels": lv})
+	}
+	if doPots {
+		o.write(M{"kind": "pots", "n": n, "c": c, "f": boolsToInts(f), "order": ord, "pots": pj, "scaled": true, "exact": exact})
+	}
+	if doSettle {
+		r := settlement.NewResult()
+		for _, p := range ps {
+			r.AddPot(p.Total, p.Levels)
+		}
+		for i := 0; i < n; i++ {
+			r.AddPlayer(i, 0)
+			if f[i] {
+				r.UpdateScore(i, 0)
+			} else {
+				r.UpdateScore(i, s[i])
+			}
+		}
+		r.Calculate()
+		chg := make([]int64, n)
+		for _, p := range r.Players {
+			if p.Idx >= 0 && p.Idx < n {
+				chg[p.Idx] = div(p.Changed)
+			}
+		}
+		o.write(M{"kind": "settle", "n": n, "c": c, "f": boolsToInts(f), "s": s, "order": ord, "pots": pj, "chg": chg, "final": chg, "rpots": []M{}, "scaled": true, "exact": exact})
+	}
+}
+
 func cmdPotsEnum(args []string) {
 	fs := flag.NewFlagSet("pots-enum", flag.ExitOnError)
 	out := fs.String("o", "pots.ndjson", "")
@@ -135,6 +201,7 @@ func cmdPotsEnum(args []string) {
 	randomN := fs.Int("random", 0, "additional seeded random vectors (realistic sizes)")
 	seed := fs.Int64("seed", 1, "")
 	what := fs.String("what", "pots,settle", "")
+	scale := fs.Bool("scale", false, "also feed every vector of up to 3 players multiplied by 2^53+1 (chip amounts a float64 cannot hold)")
 	ties := fs.Int("ties", 0, "tie family: k tied winners at contribution C <= this, with 1..3 folded partial contributions (0: off)")
 	fs.Parse(args)
 	r := rand.New(rand.NewSource(*seed))
@@ -185,6 +252,9 @@ func cmdPotsEnum(args []string) {
 							seen[string(b)] = true
 							o.write(M{"kind": "pots", "n": n, "c": append([]int64{}, c...), "f": boolsToInts(f), "order": ord, "pots": pj})
 						}
+					}
+					if *scale && n <= 3 {
+						scaledLines(o, append([]int64{}, c...), append([]bool{}, f...), nil, ident, true, false)
 					}
 				}
 				if doSettle {
@@ -331,6 +401,7 @@ func cmdPotsOne(args []string) {
 	o := &potsOut{w: newTraceWriter(*out)}
 	for _, raw := range readNDJSON(*in) {
 		var ln struct {
+			Scaled bool   `json:"scaled"`
 			Kind  string  `json:"kind"`
 			C     []int64 `json:"c"`
 			F     []int   `json:"f"`
@@ -344,7 +415,9 @@ func cmdPotsOne(args []string) {
 		for i, b := range ln.F {
 			f[i] = b == 1
 		}
-		if ln.Kind == "pots" {
+		if ln.Kind == "pots" && ln.Scaled {
+			scaledLines(o, ln.C, f, nil, ln.Order, true, false)
+		} else if ln.Kind == "pots" {
 			seen := map[string]bool{}
 			for rep := 0; rep < 8; rep++ {
 				pj := potsJSON(buildPots(ln.C, f, ln.Order), len(ln.C))
